@@ -46,7 +46,12 @@ where
     let mut accumulated_slack = Probability::zero();
 
     Ok(probabilities.iter().map(move |probability_float| {
-        let left_cumulative = (cumulative_float * scale).as_() + accumulated_slack;
+        // Due to rounding errors, the non-leaky part can exceed `free_weight` (e.g., if the
+        // tail of `probabilities` is below the resolution of `F`), which would leave no
+        // probability mass for the remaining symbols. Clamping restores validity and affects
+        // only cases where the resulting model would otherwise be invalid.
+        let non_leaky: Probability = (cumulative_float * scale).as_();
+        let left_cumulative = core::cmp::min(non_leaky, free_weight) + accumulated_slack;
         cumulative_float = cumulative_float + *probability_float;
         accumulated_slack = accumulated_slack.wrapping_add(&Probability::one());
         left_cumulative
